@@ -21,6 +21,12 @@ Definition is_pubkey_impl (buf : bytes) : bool :=
 
 Definition out3 (impl spec known : string) : string := impl +++ "|" +++ spec +++ "|" +++ known.
 
+(* Where the property prescribes no value (template text outside the documented grammar, scripts with
+   conditionals or non-minimal pushes in self-match) it still demands totality: the expected value printed
+   is the model's own non-panicking output, so that a panic / abort of the library is a specification
+   violation with the failing input attached. *)
+Definition total_only (impl : string) : string := if String.eqb impl "PANIC" then "ERR" else impl.
+
 (* ------------------------------------------------------------------ *)
 (* Debug rendering of ScriptTemplate *)
 Definition show_vec (d : bytes) : string := "[" +++ join ", " (map (fun b => dec_of_N (b2n b)) d) +++ "]".
@@ -57,7 +63,7 @@ Definition has_short_numeric (text : string) : bool := existsb short_numeric_tok
 Definition run_tparse (text : string) : string :=
   let impl := match template_from_asm text with
               | Ok ts => "OK:" +++ show_template ts | Err => "ERR" | Panic => "PANIC" end in
-  let spec := match spec_template text with Some ts => "OK:" +++ show_template ts | None => "-" end in
+  let spec := match spec_template text with Some ts => "OK:" +++ show_template ts | None => total_only impl end in
   out3 impl spec (if has_short_numeric text then "short-numeric-token" else "-").
 
 Definition show_match (r : outcome (list (mkind * bytes))) : string :=
@@ -72,10 +78,10 @@ Definition run_match (bs : bytes) (text : string) : string :=
       let spec := match spec_template text with
                   | Some ts => if template_matches_b is_sig_impl is_pubkey_impl ts s
                                then "OK:match;" +++ show_matches (extraction ts s) else "OK:nomatch"
-                  | None => "-" end in
+                  | None => total_only impl end in
       out3 impl spec (if has_short_numeric text then "short-numeric-token" else "-")
-  | Err => out3 "ERR" "-" "-"
-  | Panic => out3 "PANIC" "-" "-"
+  | Err => out3 "ERR" "ERR" "-"
+  | Panic => out3 "PANIC" "ERR" "-"
   end.
 
 Definition self_class (s : list bit) : string :=
@@ -91,10 +97,10 @@ Definition run_self (bs : bytes) : string :=
       let impl := match template_from_script s with
                   | Ok ts => show_match (match_impl is_sig_impl is_pubkey_impl s ts)
                   | Err => "OK:badtemplate" | Panic => "PANIC" end in
-      let spec := if no_conditionals s then (if minimal_pushes s then "OK:match;" else "-") else "-" in
+      let spec := if no_conditionals s then (if minimal_pushes s then "OK:match;" else total_only impl) else total_only impl in
       out3 impl spec (self_class s)
-  | Err => out3 "ERR" "-" "-"
-  | Panic => out3 "PANIC" "-" "-"
+  | Err => out3 "ERR" "ERR" "-"
+  | Panic => out3 "PANIC" "ERR" "-"
   end.
 
 (* ------------------------------------------------------------------ *)
@@ -179,7 +185,7 @@ Definition run_tx (inputs : bool) (a t e mn mx : string) : string :=
         | Some ins =>
             let impl := match ti with TBad => "OK:badtemplate"
                         | _ => show_indices (match_inputs is_sig_impl is_pubkey_impl ins ci) (match_input is_sig_impl is_pubkey_impl ins ci) end in
-            let spec := match tsp with TBad => "-"
+            let spec := match tsp with TBad => total_only impl
                         | _ => show_indices (indices_from (spec_in_selected cs) 0 ins) (first_from (spec_in_selected cs) 0 ins) end in
             out3 impl spec known
         | None => "BADARG"
@@ -189,7 +195,7 @@ Definition run_tx (inputs : bool) (a t e mn mx : string) : string :=
         | Some outs =>
             let impl := match ti with TBad => "OK:badtemplate"
                         | _ => show_indices (match_outputs is_sig_impl is_pubkey_impl outs ci) (match_output is_sig_impl is_pubkey_impl outs ci) end in
-            let spec := match tsp with TBad => "-"
+            let spec := match tsp with TBad => total_only impl
                         | _ => show_indices (indices_from (spec_out_selected cs) 0 outs) (first_from (spec_out_selected cs) 0 outs) end in
             out3 impl spec known
         | None => "BADARG"
